@@ -1314,7 +1314,7 @@ pub fn run(ctx: &mut Ctx) {
     }
     let t0 = std::time::Instant::now();
     let mut slowest: (f64, String) = (0.0, String::new());
-    let texts = ctx.budget(3000, 60_000);
+    let texts = ctx.budget(3000, 45_000);
     for _ in 0..texts {
         let mut rng = ctx.rng.fork();
         let text = gen_text(&mut rng);
@@ -1378,7 +1378,7 @@ pub fn run(ctx: &mut Ctx) {
         let steps = vec![Step { text: "Dampfschifffahrt".into(), take: Some(1) }, Step { text: "über".into(), take: None }, Step { text: "x dampfschiff".into(), take: Some(2) }, Step { text: "".into(), take: None }];
         check_history(ctx, &Tk::Simple, &fls, &steps);
     }
-    for _ in 0..ctx.budget(4_000, 80_000) {
+    for _ in 0..ctx.budget(4_000, 40_000) {
         history_case(ctx);
     }
     ctx.report.notes.push(format!("timing (informative only): snippet + collapse cases {:.1}s", t0.elapsed().as_secs_f64()));
